@@ -190,8 +190,7 @@ Proof.
   pose proof names_functional as B. rewrite forallb_forall in B. specialize (B (name, raw) H). cbn [fst snd] in B.
   apply andb_prop in B. destruct B as [_ B]. apply str_eqb_eq in B.
   split; [exact A|]. split; [exact B|].
-  unfold wf_content in A. destruct (parse raw) as [m|]; [exists m; reflexivity|].
-  rewrite andb_false_r in A. discriminate.
+  unfold wf_content in A. destruct (parse raw) as [m|]; [exists m; reflexivity|]. discriminate.
 Qed.
 
 Lemma bundled_cells name raw m : In (name, raw) submat_files -> parse raw = Some m ->
@@ -447,8 +446,7 @@ Qed.
 Lemma wf_file_ok raw : wf_content raw = true -> file_ok raw = true.
 Proof.
   unfold wf_content. intros H.
-  apply andb_prop in H. destruct H as [H Hrows]. apply andb_prop in H. destruct H as [H Hhdr].
-  apply andb_prop in H. destruct H as [_ Hp].
+  apply andb_prop in H. destruct H as [H Hrows]. apply andb_prop in H. destruct H as [Hp Hhdr].
   destruct (parse raw) as [m|] eqn:Ep; [|discriminate].
   unfold file_ok. rewrite Ep, Hhdr, Hrows. cbn [andb].
   pose proof (nodupb_NoDup _ Hrows) as NDr. pose proof (nodupb_NoDup _ Hhdr) as NDh.
